@@ -406,6 +406,15 @@ func init() {
 	ext["(reflect.Value).Convert"] = func(fr *frame, args []value) value {
 		t := args[1].(iface).v.(rtype).t
 		src := rV2T(args[0]).t
+		if !types.ConvertibleTo(src, t) {
+			reflectPanic("reflect.Value.Convert: value of type " + src.String() + " cannot be converted to type " + t.String())
+		}
+		if types.Identical(src.Underlying(), t.Underlying()) {
+			return mkRV(t, rvCur(args[0]), nil)
+		}
+		if _, isPtr := src.Underlying().(*types.Pointer); isPtr {
+			return mkRV(t, rvCur(args[0]), nil)
+		}
 		return mkRV(t, conv(t, src, rvCur(args[0])), nil)
 	}
 	ext["(reflect.Value).Pointer"] = func(fr *frame, args []value) value { return funcPointer(rvCur(args[0])) }
